@@ -23,7 +23,10 @@
 (*                            bit-identical to proposal j of the t-th      *)
 (*                            prior call (0,0 = to none), sat = 1 iff the  *)
 (*                            scenario's constraint predicate holds on the *)
-(*                            returned row (evaluated after the call)      *)
+(*                            returned row (evaluated after the call);     *)
+(*                            truncated = the harness stopped logging      *)
+(*                            (thousands of trials; never on a call that   *)
+(*                            returns in the scenarios generated)          *)
 (* Design state (GmRvs.tla) is tracked for the M: clauses.                 *)
 (***************************************************************************)
 EXTENDS Naturals, Integers, Sequences, FiniteSets, TLC, Json, IOUtils
@@ -53,9 +56,12 @@ AccOfMask(mask, t, j) == IF j > Len(mask) THEN <<>>
 RECURSIVE AccAll(_, _)
 AccAll(ms, t) == IF t > Len(ms) THEN <<>> ELSE AccOfMask(ms[t], t, 1) \o AccAll(ms, t + 1)
 
+FirstOf(s) == IF Len(s) = 0 THEN <<>> ELSE <<s[1]>>
+
 JudgeP(e) ==
   IF e.ev # "ret" THEN "ok"
   ELSE IF e.res # "val" THEN (IF T.possible THEN "P:count" ELSE "ok")   \* did not return the points
+  ELSE IF e.truncated THEN "X:log-truncated"
   ELSE IF T.nowrap /\ (e.wrapped \/ e.nrows # 1) THEN "P:count"
   ELSE IF ~T.nowrap /\ (~e.wrapped \/ e.nrows # T.size) THEN "P:count"
   ELSE IF ~e.dimok THEN "P:count"
@@ -78,7 +84,7 @@ JudgeM(e) ==
     [] e.ev = "ret" ->
          IF e.res # "val" THEN ""
          ELSE IF T.constrained /\ [r \in 1..Len(e.rows) |-> <<e.rows[r][1], e.rows[r][2]>>] #
-                                  (IF T.nowrap THEN SubSeq(AccAll(masks, 1), 1, 1) ELSE AccAll(masks, 1))
+                                  (IF T.nowrap THEN FirstOf(AccAll(masks, 1)) ELSE AccAll(masks, 1))
               THEN "M:accepted-in-order"
          ELSE ""
     [] OTHER -> "X:unknown-event"
